@@ -7,6 +7,7 @@
 import Lean.Data.Json
 import CirkitModel.Model.Num
 import CirkitModel.Model.Sym
+import CirkitModel.Model.Fold
 
 open Lean Cirkit
 
@@ -67,6 +68,13 @@ def getBoolD (j : Json) (k : String) (d : Bool) : Bool :=
 def getNatList (j : Json) (k : String) : Except String (List Nat) := do
   let a ← (← j.getObjVal? k).getArr?
   a.toList.mapM (·.getNat?)
+def getNatLL (j : Json) (k : String) : Except String (List (List Nat)) := do
+  let a ← (← j.getObjVal? k).getArr?
+  a.toList.mapM fun r => do (← r.getArr?).toList.mapM (·.getNat?)
+def parsePair (j : Json) : Except String (Nat × Nat) :=
+  match j with
+  | .arr #[a, b] => do pure (← a.getNat?, ← b.getNat?)
+  | _ => .error "expected a pair"
 def getOptRat (j : Json) (k : String) : Except String (Option Rat) :=
   match j.getObjVal? k with
   | .ok .null => .ok none
@@ -200,7 +208,8 @@ def rowFn (A : AOps R) (row : Array R) : Nat → R := fun v => row.getD v A.zero
 def sumFunctional (A : AOps R) (doms : List (Nat × Nat)) : Nat → (R → R) → R :=
   fun v g =>
     match doms.find? (·.1 == v) with
-    | some (_, n) => A.toOps.sumN n fun a => g (A.ofRat (a : Nat))
+    | some (_, n) =>
+        Node.quad A.toOps ((List.range n).map fun a => A.ofRat (a : Nat)) (fun _ => A.one) g
     | none => A.zero
 
 def handle (M : Mode R) (s : State R) (j : Json) : Except String (State R × Json) := do
@@ -279,7 +288,8 @@ def handle (M : Mode R) (s : State R) (j : Json) : Except String (State R × Jso
       let res := rows.map fun row =>
         Json.arr (outs.toArray.map fun n =>
           Json.arr ((Array.range n.units).map fun i =>
-            Json.str (A.show_ (Node.sumOver S zs (fun y => n.eval A.toOps y i) (rowFn A row)))))
+            Json.str (A.show_ (Node.sumOver S (zs.filter fun z => n.vars.contains z)
+              (fun y => n.eval A.toOps y i) (rowFn A row)))))
       pure (s, Json.mkObj [("ok", Json.arr res.toArray)])
   | "masked_eval" => do
       let c ← s.get (← getStr j "id")
@@ -303,6 +313,33 @@ def handle (M : Mode R) (s : State R) (j : Json) : Except String (State R × Jso
           | some sh => Json.arr (sh.toArray.map fun n => toJson (n : Nat))
           | none => Json.null),
         ("ok", showArr A t.data)])
+  | "foldcert" => do
+      -- validate a fold certificate read from the real compiled circuit, and recompute the model's
+      let n ← getNat j "n"
+      let insL ← getNatLL j "ins"
+      let keys ← getNatList j "keys"
+      let g : UGraph := { n := n, ins := fun m => insL.getD m [], key := fun m => keys.getD m 0,
+                          outputs := ← getNatList j "outputs" }
+      let groups ← getNatLL j "groups"
+      let inIdx ← (← (← j.getObjVal? "in_idx").getArr?).toList.mapM fun grp => do
+        (← grp.getArr?).toList.mapM fun row => do
+          (← row.getArr?).toList.mapM parsePair
+      let outIdx ← (← (← j.getObjVal? "out_idx").getArr?).toList.mapM parsePair
+      let c : FoldCert := { groups := groups, inIdx := inIdx, outIdx := outIdx }
+      let frontiers ← getNatLL j "frontiers"
+      let mc := buildFolded g frontiers
+      let numFolds : Nat → Nat := fun gi => (groups.getD gi []).length
+      let topo := (List.range n).all fun m => (g.ins m).all (· < m)
+      let entries := (List.range groups.length).map fun gi =>
+        let e := stackedEntry (inIdx.getD gi []) numFolds
+        Json.mkObj [("ids", toJson e.1), ("idx", toJson e.2)]
+      let outEntry := stackedEntry [outIdx] numFolds
+      pure (s, Json.mkObj [("valid", Json.bool (c.valid g)), ("topo", Json.bool topo),
+        ("model_groups", toJson mc.groups),
+        ("model_same", Json.bool (mc.groups == groups && mc.outIdx == outIdx &&
+            mc.inIdx == inIdx)),
+        ("entries", Json.arr entries.toArray),
+        ("out_entry", Json.mkObj [("ids", toJson outEntry.1), ("idx", toJson outEntry.2)])])
   | _ => throw s!"unknown command {cmd}"
 
 partial def loop (M : Mode R) (h : IO.FS.Stream) (out : IO.FS.Stream) (s : State R) : IO Unit := do
